@@ -15,6 +15,9 @@ func init() {
 		Stale(c, "R-STALE", []*packages.Package{c.Pkg("fp"), c.Pkg("statet")}, 25, 15)
 		Unit(c, "R-UNIT", 8)
 		TemplateCopies(c, "R-COPIES", monadPackages(c), 100)
+		// the Applicative/Chain builders return what their FlatMap definition returns: the first failing operand in
+		// left-to-right order decides (effect-order summaries, shared with C02)
+		EffOrder(c, "R-EFFORDER", []*packages.Package{c.Pkg("option"), c.Pkg("try"), c.Pkg("either"), c.Pkg("future"), c.Pkg("statet")})
 		Rel(c, "R-REL", monadPackages(c), func(p *packages.Package, fd *ast.FuncDecl, fn *types.Func) bool { return true }, nil, 400)
 	})
 }
